@@ -90,6 +90,7 @@ type OCSPSpec struct {
 	// post-signature tampering
 	ZeroSignature bool
 	FlipTBS       bool
+	SignatureOf   []byte // DER of another OCSP response whose signature value is used instead of a fresh one (a transplant)
 	ByKeyHash     bool
 }
 
@@ -163,6 +164,17 @@ func ForgeOCSP(s OCSPSpec) []byte {
 		for i := range sig {
 			sig[i] = 0
 		}
+	}
+	if s.SignatureOf != nil {
+		var outer ocspResponse
+		var basic ocspBasic
+		if _, err := asn1.Unmarshal(s.SignatureOf, &outer); err != nil {
+			panic(err)
+		}
+		if _, err := asn1.Unmarshal(outer.Response.Response, &basic); err != nil {
+			panic(err)
+		}
+		sig = basic.Signature.Bytes
 	}
 	if s.FlipTBS {
 		tbs = append([]byte(nil), tbs...)
